@@ -1,6 +1,6 @@
 (* C17 property theorems. Nothing but statements closed by `exact lemma` and Print Assumptions. *)
 From Coq Require Import NArith List Bool.
-From OG Require Import C17.Model C17.Proofs C17.Refine C17.Corr C17.Scope C17.Gen_Consts.
+From OG Require Import C17.Model C17.Proofs C17.Refine C17.Corr C17.Scope C17.Gen_Consts C17.Crash.
 Import ListNotations.
 Open Scope N_scope.
 
@@ -108,3 +108,20 @@ Example C17_small_scope_size : count_hist VRepaired tiny_params 4 (empty_disk ti
 Proof. vm_compute. reflexivity. Qed.
 Example C17_small_scope_rejects_current : explore VCurrent tiny_params 4 (empty_disk tiny_params) empty_alog = false.
 Proof. vm_compute. reflexivity. Qed.
+
+(* Crash points inside Save (granularity: the store's write operations; order of RaftDiskStorage.Save = entries, hard
+   state, snapshot). Whatever the number k of steps completed when the process dies: below the first new index the
+   log is untouched; hard state and snapshot are the old or the new ones; a new hard state or snapshot is visible only
+   together with the complete batch (so a commit index that refers to entries of the batch never outruns the log). *)
+Theorem C17_crash_inside_save : forall st0 es h s k,
+  Forall (fun e => match es with [] => True | e0 :: _ => e_index e0 <= e_index e end) es ->
+  inside_ok st0 es h s (crash_state k (save_steps es h s) st0).
+Proof. exact crash_entries_first. Qed.
+Print Assumptions C17_crash_inside_save.
+
+(* the contract is not vacuous: writing the meta file first breaks it (hard state commits 5, log ends at 3) *)
+Example C17_crash_meta_first_breaks :
+  exists k, let st := crash_state k (save_steps_meta_first demo_es demo_hs None) demo_st0 in
+            ~ inside_ok demo_st0 demo_es demo_hs None st
+            /\ hs_commit (p_hs st) = 5 /\ last_of (p_log st) = 3.
+Proof. exact crash_meta_first_breaks. Qed.
